@@ -201,11 +201,23 @@ func Point(k Kind, enabled func() bool) {
 	x := cur
 	if x == nil || x.atomic > 0 {
 		if enabled != nil && !enabled() {
-			if x != nil {
-				// blocking inside an Atomic section is a harness error
-				fatalf("blocking %s operation inside Atomic section", k)
+			if x == nil {
+				fatalf("blocking %s operation outside the scheduler", k)
 			}
-			fatalf("blocking %s operation outside the scheduler", k)
+			if x.killed {
+				runtime.Goexit()
+			}
+			// The code inside an Atomic section has to WAIT (for a goroutine it started itself, say: a Destroy that
+			// stops its loggers in the background and waits for them). The section stops being atomic while it
+			// waits - the other threads run, under the explorer's control - and is atomic again afterwards.
+			saved := x.atomic
+			x.atomic = 0
+			t := x.cur
+			t.enabled = enabled
+			t.kind = k
+			x.reschedule(t)
+			t.enabled = nil
+			x.atomic = saved
 		}
 		return
 	}
